@@ -121,6 +121,8 @@ func buildProject(a absProject) *types.Project {
 		s := types.ServiceConfig{Name: svcName(i), Image: "img" + strconv.Itoa(i), Environment: types.MappingWithEquals{}}
 		if len(a.Sprof[i-1]) > 0 {
 			s.Profiles = append([]string{}, a.Sprof[i-1]...)
+		} else if i%2 == 0 {
+			s.Profiles = []string{} // no profile, written as an empty list (`profiles: []` loads like this) rather than left out
 		}
 		if len(a.Req[i-1])+len(a.Opt[i-1]) > 0 {
 			s.DependsOn = types.DependsOnConfig{}
